@@ -81,7 +81,7 @@ def _family_task(fam):
 
 
 # =========================================================================== RefinementIndependent families
-def make_families(rng, n, fid0, gene_specs):
+def make_families(rng, n, fid0, gene_specs, small=False):
     """Pools of 2-4 candidate major solutions with DIFFERENT gene structures over evidence whose allele fractions sit
     between the filter thresholds of the structures (so that the structure the filter uses matters)."""
     aldyenv.setup()
@@ -100,6 +100,8 @@ def make_families(rng, n, fid0, gene_specs):
         same_universe = rng.random() < 0.6
         pool = []
         want = rng.choice([2, 3, 3, 4])
+        if gname != "toy" and small:
+            want = min(want, 3)
         shapes = [1, 2, 3, 4]
         rng.shuffle(shapes)
         for ncopies in shapes:
@@ -244,10 +246,14 @@ def run(ctx):
     # ------------------------------------------------------------------ histories from TLC
     tasks, hmeta = [], {}
 
+    wids = {}
+    NG = 2 if quick else 3   # memo groups per world (parallel TLC runs); traces of a group share the monitor's memory
+
     def add(spec, ops, kind, reload_cov=False):
         tid = len(tasks) + 1
         tasks.append((spec, ops, tid, reload_cov))
-        hmeta[tid] = {"world": spec["kind"] + "/" + spec.get("variant", spec["genes"].get("B", spec["genes"]["A"])["name"]), "spec": spec,
+        w0 = wids.setdefault(json.dumps(spec, sort_keys=True), len(wids))
+        hmeta[tid] = {"w": w0 * 10 + tid % NG, "world": spec["kind"] + "/" + spec.get("variant", spec["genes"].get("B", spec["genes"]["A"])["name"]), "spec": spec,
                       "ops": ops, "kind": kind}
 
     for sim, worlds in ((True, sim_worlds), (False, syn_worlds)):
@@ -300,7 +306,7 @@ def run(ctx):
     # ------------------------------------------------------------------ refinement families
     gene_specs = [("toy", "hg19"), ("toy", "hg38"), ("cyp2c19", "hg19"), ("cyp2d6", "hg19")] if quick else [
         ("toy", "hg19"), ("toy", "hg38"), ("cyp2c19", "hg19"), ("cyp2d6", "hg19"), ("cyp2c9", "hg38"), ("cyp2a6", "hg19"), ("cyp2b6", "hg19")]
-    fams = make_families(rng, 10 if quick else 120, 1000000, gene_specs)
+    fams = make_families(rng, 10 if quick else 120, 1000000, gene_specs, small=quick)
 
     # ------------------------------------------------------------------ execute
     order = sorted(range(len(tasks)), key=lambda i: -(3 * sum(1 for o in tasks[i][1] if o["k"] in ("Genotype", "GenotypeMulti", "FreshProcess"))
@@ -354,12 +360,16 @@ def run(ctx):
                     "lists": [r["op"]["g"] for r in fam_by[f0["fid"]][1]][:12]})
 
     # ------------------------------------------------------------------ validate with TLC
-    for tid in sorted(by_tid):
+    for tid in sorted(by_tid, key=lambda t: (hmeta[t]["w"], t)):
+        for r in by_tid[tid]:
+            r["w"] = hmeta[tid]["w"]
         rows += by_tid[tid]
     for fid in sorted(fam_by):
+        for r in fam_by[fid][1]:
+            r["w"] = fid
         rows += fam_by[fid][1]
-    rej = ctx.trace_batches("trace/HistoryTrace", "trace/HistoryTrace.cfg", rows, label="HistoryTrace", chunk=2500 if quick else 6000,
-                            group=lambda r: r["tid"], jobs=12)
+    rej = ctx.trace_batches("trace/HistoryTrace", "trace/HistoryTrace.cfg", rows, label="HistoryTrace", chunk=400 if quick else 2500,
+                            group=lambda r: r["w"], jobs=12)
     bad = {}
     for tid, clause, i, part in rej:
         if clause.startswith("UNDECIDED"):
@@ -374,7 +384,7 @@ def run(ctx):
         if c:
             ctid = 5000000 + k
             for r in c[0]:
-                r["tid"] = ctid
+                r["tid"], r["w"] = ctid, ctid
             crow += c[0]
             expect[ctid] = c[1]
     cleanf = [f for f in fam_by if f not in bad]
@@ -385,7 +395,7 @@ def run(ctx):
             multi[-1]["per"][0]["res"], multi[-1]["per"][0]["resS"] = "9" * 16, "8" * 16
             ctid = 6000000 + k
             for r in rs:
-                r["tid"] = ctid
+                r["tid"], r["w"] = ctid, ctid
             crow += rs
             expect[ctid] = "RefinementIndependent"
     if crow:
@@ -395,6 +405,9 @@ def run(ctx):
             got.setdefault(tid, set()).add(clause)
         for ctid, exp in expect.items():
             ctx.canary(exp in got.get(ctid, set()))
+            if exp not in got.get(ctid, set()):
+                print(f"[C14] canary {ctid} expected {exp}, got {sorted(got.get(ctid, set()))}: "
+                      f"{[(r['i'], W.op_key(r['op']), r['seed'], r['res']) for r in crow if r['tid'] == ctid][:40]}")
     if not expect and not bad:
         raise MachineryError("no canary could be derived")
 
@@ -441,26 +454,18 @@ def report(ctx, bad, hmeta, by_tid, fam_by):
                     ctx.violation(clause, fp, {"family": fam, "list": r["op"]["g"]}, f"family {tid}: estimate_minor on list {r['op']['g']}: {clause} {fp['parts']} {r['raised']}")
             continue
         m = hmeta[tid]
-        # run the history once more, keeping the values, for the report
-        try:
-            _, values = W._in_fork(W.run_history, m["spec"], m["ops"], tid, False, True, False) if not any(
-                o["k"] == "FreshProcess" for o in m["ops"]) else W.run_history(m["spec"], m["ops"], tid, False, True)
-        except Exception as ex:  # noqa
-            values = {}
-            print(f"  (re-run of history {tid} for the report failed: {ex})")
         rs = by_tid[tid]
-        first = {}
-        for r in rs:
-            first.setdefault(json.dumps(r["op"], sort_keys=True), r["i"])
         seen = set()
+        values = None
         for clause, i, part in items:
             r = next(x for x in rs if x["i"] == i)
-            v = values.get(i, {})
             fp = {"clause": clause, "op": op_name(r["op"]), "world": m["world"].split("/")[0]}
             detail = f"history {tid} on {m['world']}: {[W.op_key(o) for o in m['ops']]}; event {i} {W.op_key(r['op'])}"
-            case = {"world": {k: x for k, x in m["spec"].items()}, "history": m["ops"], "event": i, "executed": [W.op_key(x["op"]) for x in rs]}
+            case = {"world": m["spec"], "history": m["ops"], "event": i, "executed": [W.op_key(x["op"]) for x in rs]}
+            if values is None:   # run the history once more, keeping the values, for the report
+                values = _values_of(m, tid)
+            v = values.get(i, {})
             if clause in ("DbUntouched", "EvUntouched", "EqualsFreshLoad"):
-                prev = next((x for x in rs if x["i"] == i - 1), None)
                 parts = set()
                 key = "db_parts" if clause != "EvUntouched" else "ev_parts"
                 pv = values.get(i - 1, {})
@@ -472,29 +477,36 @@ def report(ctx, bad, hmeta, by_tid, fam_by):
                     parts |= set(x.get("parts", []))
                 fp["parts"] = ",".join(sorted(parts))
                 detail += f": {clause}: changed parts {sorted(parts)}" + (" (against a fresh load)" if r["op"]["k"] == "Reload" else "")
-                del prev
             elif clause == "OpRaised":
                 fp["raised"] = r["raised"].split(":")[0]
                 detail += f": raised {r['raised']}"
             else:
-                k0 = json.dumps(r["op"], sort_keys=True)
-                j = first.get(k0, i)
+                # the memoised value: first event of the memo group (world) with the same (operation, arguments)
                 if part:
-                    sk = json.dumps({"k": "Genotype", "a": r["op"]["a"], "g": [r["per"][part - 1]["g"]], "n": 0}, sort_keys=True)
-                    j = min(first.get(sk, i), i)
+                    key = {"k": "Genotype", "a": r["op"]["a"], "g": [r["per"][part - 1]["g"]]}
                     now = (v.get("per") or {}).get(r["per"][part - 1]["g"])
                 else:
+                    key = {"k": r["op"]["k"], "a": r["op"]["a"], "g": r["op"]["g"]}
                     now = v.get("value")
-                was = values.get(j, {}).get("value") if j != i else None
-                if was is None:
-                    for x in rs:  # the memoised value may be a part of an earlier multi-gene run
-                        if x["i"] < i and x["op"]["k"] == "GenotypeMulti" and r["op"]["k"] == "Genotype":
-                            for p in x["per"]:
-                                if p["g"] == r["op"]["g"][0] and x["op"]["a"] == r["op"]["a"]:
-                                    was = (values.get(x["i"], {}).get("per") or {}).get(p["g"])
-                                    break
-                        if was is not None:
+                was, base_tid = None, None
+                for t2 in sorted((t for t in by_tid if hmeta[t]["w"] == m["w"] and t <= tid), key=lambda t: t):
+                    for x in by_tid[t2]:
+                        if t2 == tid and x["i"] >= i:
                             break
+                        if {"k": x["op"]["k"], "a": x["op"]["a"], "g": x["op"]["g"]} == key:
+                            base_tid, bi, bp = t2, x["i"], None
+                        elif x["op"]["k"] == "GenotypeMulti" and key["k"] == "Genotype" and x["op"]["a"] == key["a"] and key["g"][0] in x["op"]["g"]:
+                            base_tid, bi, bp = t2, x["i"], key["g"][0]
+                        else:
+                            continue
+                        bv = values if t2 == tid else _values_of(hmeta[t2], t2)
+                        was = bv.get(bi, {}).get("value") if bp is None else (bv.get(bi, {}).get("per") or {}).get(bp)
+                        break
+                    if base_tid is not None:
+                        break
+                if base_tid is not None and base_tid != tid:
+                    case["base_history"] = hmeta[base_tid]["ops"]
+                    detail += f"; first seen in history {base_tid} {[W.op_key(o) for o in hmeta[base_tid]['ops']]}"
                 if isinstance(now, dict) and isinstance(was, dict):
                     fp["kind"] = "score-only" if (now.get("s"), now.get("t")) == (was.get("s"), was.get("t")) else (
                         "text-only" if now.get("s") == was.get("s") else "structure")
@@ -510,6 +522,25 @@ def report(ctx, bad, hmeta, by_tid, fam_by):
             ctx.violation(clause, fp, case, detail)
 
 
+_VAL_CACHE = {}
+
+
+def _values_of(m, tid):
+    if tid not in _VAL_CACHE:
+        try:
+            if any(o["k"] == "FreshProcess" for o in m["ops"]):
+                _, values = W.run_history(m["spec"], m["ops"], tid, False, True)
+            else:
+                _, values = W._in_fork(W.run_history, m["spec"], m["ops"], tid, False, True, False)
+        except Exception as ex:  # noqa
+            values = {}
+            print(f"  (re-run of history {tid} for the report failed: {ex})")
+        if len(_VAL_CACHE) > 50:
+            _VAL_CACHE.clear()
+        _VAL_CACHE[tid] = values
+    return _VAL_CACHE[tid]
+
+
 def replay(path):
     aldyenv.setup()
     from ..core import Ctx
@@ -522,7 +553,7 @@ def replay(path):
         fam = case["family"]
         rows, meta = W.refine_family(fam)
         for r in rows:
-            r["tid"] = 1
+            r["tid"], r["w"] = 1, 1
         rej = ctx.trace_batch("trace/HistoryTrace", "trace/HistoryTrace.cfg", rows, label="replay")
     else:
         spec = case["world"]
@@ -534,7 +565,13 @@ def replay(path):
                 if spec["kind"] == "sim":
                     spec = W.build_sim_world(d, spec["seed"], spec["variant"])
                 break
-        rows, _ = W.run_history(spec, case["history"], 1, reload_cov=True)
+        rows = []
+        if case.get("base_history"):
+            rows, _ = W.run_history(spec, case["base_history"], 1, reload_cov=False)
+        r2, _ = W.run_history(spec, case["history"], 2, reload_cov=True)
+        rows += r2
+        for r in rows:
+            r["w"] = 1
         rej = ctx.trace_batch("trace/HistoryTrace", "trace/HistoryTrace.cfg", rows, label="replay")
     want = blob["clause"]
     hit = [r for r in rej if r[1] == want]
